@@ -558,3 +558,30 @@ DOC = {
         technique='TLA+ concurrency model + TLC exploration of all schedules (ConcurrentEvalMC) + replay of interleavings on gated goroutines validated by TLC; Go race detector for the free-running part',
     ),
 }
+
+# coverage added after the third round of seeded changes (appended to the level texts)
+_ADDED = {
+    'C01': 'Multi-event segments keep one calculator alive: hundreds of rejected texts between well-formed expressions, pairs of expressions that differ only in the letter case inside string constants, expressions wrapped in 64..2000 pairs of parentheses; keywords are also spelled with the letters whose upper case is an ASCII letter (long s, dotless i); the token list the lexer delivers is taken from a separate tokenizer.',
+    'C02': 'One parser per segment: long-lived parsers see hundreds of rejected inputs (45 levels deep) before sentences, the text a parser composed is parsed again by the same parser; nesting, chains and argument lists of 64..2000; words that only look like keywords (Kelvin sign, long s, dotless i).',
+    'C03': 'Scale inputs: 8..2000 arguments, nesting and chains of 8..2000, every count 1..140 of open sections / parentheses / array elements, long templates; every rare code point (range ends, characters aliasing ASCII in their low 8/16 bits, letters with length-changing or ASCII case mappings, Unicode digits and spaces, U+FFFD..U+FFFF, supplementary planes) in 32 contexts through expression, template and all nine tokenizer configurations.',
+    'C04': 'Also: the rare code points in 32 contexts, inputs of 63..4097 characters around the powers of two, one token of up to 5000 characters of every class, 35 000 repetitions of a two-token unit (70 001 tokens; Covers is a single pass), four additional tokenizer configurations (overlapping non-Latin ranges, non-Latin CSV separator, non-ASCII quote characters, symbols typed Unknown).',
+    'C05': 'Also the four additional tokenizer configurations, reused instances given hundreds of rejected inputs before accepted ones, one parser used through ParseTokens / ParseString / its own composed text, and the default function table changed (remove / add / replace) between evaluations, the fresh instance receiving the same changes.',
+    'C06': 'A second pool of 77 "wide" values (int64 extremes, float32 rounding midpoints above 2^53, bit patterns shared by Long and Double, denormals, long decimal numerals as strings) runs through every operator; for numeric operands the recorder computes the same operator with the host language\'s own operator on the native type of the first operand (c06host.go) and the trace spec requires equality of type and canonical payload.',
+    'C07': 'VariantConvTrace is a state machine for histories on one manager (hstart / hconv / hend, variable held): every conversion must equal the same conversion by a fresh manager on a fresh copy, and every result handed out must be unchanged at the end - pairs over values whose 64-bit payloads coincide across types, a reused source variant changed in place, histories of 70..1100 conversions.',
+    'C08': 'Also: argument lists of 9..257 for every function, date-times in zones other than UTC and with a non-UTC host zone (weekday of the value\'s own calendar day), and rndmany events (30 000 draws from each of 40..400 generator states plus 2 x 20..400 million draws; smallest / largest floor(v * 2^24)).',
+    'C09': 'Also: a quote character at every offset 0..300 (1100) of a long quoted field, fields / rows / columns of 63..4097, every rare code point up to U+FFFE in fields, non-Latin data with non-Latin separators and quotes, and the setter fed the list the getter returned.',
+    'C10': 'Also: literal text of 63..4097 characters, nesting and node counts of 63..1025, rare code points and unusual white space at the edges of the template and of text runs, names whose case mapping changes the UTF-8 length.',
+    'C11': 'Also: rare code points next to line breaks, a line break of every style at the offsets around the multiples of 64 (every offset 0..299 in the thorough tier) read through and walked back, multi-unread by 62..1000 from the end-of-input slot, contents up to 1025 characters. LC is evaluated as one iterative pass.',
+    'C12': 'Also: line breaks at the offsets around the multiples of 64 after tokens that read them and put them back, the rare code points, four more tokenizer configurations, one line of 70 000 columns and 70 000 lines (Aligned is one iterative pass carrying the position).',
+    'C13': 'Also: rare lexemes (non-Latin words starting with characters whose low byte is a symbol character, Unicode digits, 19+ digit integers, 300-character words / literals / comments) before and after every pool lexeme, sequences of 64..600 lexemes, keyword spellings with long s / dotless i, look-alikes with the Kelvin sign.',
+    'C14': 'Also: every rare code point inside the string, a quote character at every offset 0..300 (1100), quote-heavy strings of 100..280 (1100) characters whose encoded length crosses 128/256/512.',
+    'C15': 'Also: four more tokenizer configurations (non-ASCII quote characters with decoding, symbols typed Unknown with skip-unknown), runs of 129..1030 dropped tokens, the rare code points, long inputs x option sets.',
+    'C16': 'Also: 15..50 sibling symbols under one node (extended and re-typed afterwards), non-Latin and supplementary-plane symbol characters, symbols of 64..300 characters with registered prefixes, 200..1024 registrations between two reads of the same input.',
+    'C17': 'Also: probes whose low 8 or 16 bits alias a boundary character, U+FFFD, supplementary planes; histories of 33..300 registrations with newer ranges nested in older ones and conversely.',
+    'C18': 'Also: names whose upper-case form has another UTF-8 length or is an ASCII letter (collections compared under the library\'s own upper-case rule), collections of 33..300 entries, expressions with 8..130 distinct variables whose late ones recur, quoted identifiers containing quotes and spaces.',
+    'C19': 'Also: Sum / Max over 10+ arguments with string constants and variables, shift counts above 64 held in constants and variables, Concat, template maps with keys equal under Unicode folding but not under lower-casing.',
+    'C20': 'Also: the caller appending to / shortening its own list (ListAppend / ListCut) around variants built from lists with spare capacity, unset (nil) elements, strings compared byte for byte (ill-formed UTF-8, 64..4097 bytes), the typed constructors and setters next to NewVariant / SetAsObject.',
+}
+for _k, _v in _ADDED.items():
+    DOC[_k]['level'] += ' ' + _v
+DOC['C18']['note'] = DOC['C18']['note'].replace('folding of names done by the recorder with strings.ToLower', "folding of names done by the recorder with the library's own rule (strings.ToUpper)")
